@@ -90,13 +90,20 @@ Definition l1_map (a : l1) (seqno pid : Z) : (bool * Z * Z) * l1 :=
   else if window <? w16 (l_next a - seqno) then ((true, seqno, 0), l1_reset a seqno pid)
   else (triple (l1_direct a seqno), a).
 
-Definition l1_reverse (a : l1) (seqno : Z) : bool * Z * Z :=
+Definition l1_reverse_raw (a : l1) (seqno : Z) : bool * Z * Z :=
   if l_nil a then
     if l_delta a =? 0 then (true, seqno, 0) else (false, 0, 0)
   else
     triple (lwalk (l_view a) seqno
                   (fun e => w16 (e_first e + e_delta e))
                   (fun e => w16 (seqno - e_delta e))).
+
+Definition l1_recent (a : l1) (s : Z) : bool :=
+  l_started a && (cmp16 s (l_next a) <? 0) && (w16 (l_next a - s) <=? window).
+
+Definition l1_reverse (a : l1) (seqno : Z) : bool * Z * Z :=
+  let '(ok, s, p) := l1_reverse_raw a seqno in
+  if ok && l1_recent a s then (true, s, p) else (false, 0, 0).
 
 Definition l1_drop (a : l1) (seqno pid : Z) : bool * l1 :=
   if negb (l_started a) || negb (seqno =? l_next a) then (false, a)
